@@ -50,9 +50,14 @@ def rand_chain(rng, closed, fam=None, maxn=8):
         nodes[n] = nodes[0]
         nodes = nodes[:n + 1]
     segs = []
+    retract = rng.random() < 0.35        # retracted handles: an off-curve point on top of an on-curve node (common in font sources)
     for i in range(n):
         order = rng.choice([2, 3, 4])
-        segs.append([nodes[i]] + [pts() for _ in range(order - 2)] + [nodes[i + 1]])
+        inner = [pts() for _ in range(order - 2)]
+        if retract and inner and rng.random() < 0.6:
+            j = rng.randrange(len(inner))
+            inner[j] = rng.choice([nodes[i], nodes[i + 1], nodes[0], nodes[i + 1]])
+        segs.append([nodes[i]] + inner + [nodes[i + 1]])
     return segs
 
 
